@@ -390,6 +390,10 @@ class MetadorGroup(MetadorNode):
     def __iter__(self):
         return iter(self.keys())
 
+    def __reversed__(self):
+        # must be overridden, otherwise the object proxy forwards it to the raw (unfiltered) group
+        return reversed(list(self.keys()))
+
     def __len__(self):
         return len(list(self.keys()))
 
